@@ -122,7 +122,21 @@ impl Scheduler for SimScheduler {
             self.state.lock().unwrap().no_progress = true;
             return None;
         }
-        let pick = if step >= N_ADV {
+        // simulated clock (one step = one millisecond) and quiescence: when every runnable task sits
+        // in a timed wait nothing can happen before the earliest deadline, so that waiter times out
+        let quiescent_pick: Option<usize> = crate::ctx::with(|c| {
+            c.clock_steps = step as u64;
+            if c.timed.is_empty() || !ids.iter().all(|i| c.timed.contains_key(&(*i as u32))) {
+                return None;
+            }
+            let first = ids.iter().copied().min_by_key(|i| (c.timed[&(*i as u32)], *i))?;
+            c.timed_fire.insert(first as u32);
+            Some(first)
+        })
+        .flatten();
+        let pick = if let Some(q) = quiescent_pick {
+            q
+        } else if step >= N_ADV {
             self.fair(&ids)
         } else {
             match &self.spec {
